@@ -856,6 +856,90 @@ def expand_kwargs_dicts(fn, known_locals):
   return fn
 
 
+def sink_callee_choice(fn, known_locals):
+  """if c: f = X  elif d: f = Y  else: raise ...          if c: r = X(a)
+  r = f(a)                                          ->    elif d: r = Y(a)
+                                                          else: raise ...
+  The statement that follows an if-chain is moved into every arm that does
+  not leave, when it calls an unknown local that the arms bind to plain
+  function references and that is used nowhere else.  (Executing the next
+  statement at the end of each arm instead of after the chain is the same
+  program; the pass only decides when to do it.)"""
+  import copy as _copy
+  params = {a.arg for a in ast.walk(fn.args) if isinstance(a, ast.arg)}
+
+  def leaves(arm):
+    return bool(arm) and isinstance(arm[-1], (ast.Return, ast.Raise,
+                                              ast.Continue, ast.Break))
+
+  def arms_of(st):
+    out = [st.body]
+    while len(st.orelse) == 1 and isinstance(st.orelse[0], ast.If):
+      st = st.orelse[0]
+      out.append(st.body)
+    out.append(st.orelse)      # may be empty: the implicit else
+    return out, st
+
+  again = True
+  rounds = 0
+  while again and rounds < 6:
+    again = False
+    rounds += 1
+    for owner in ast.walk(fn):
+      for f in ('body', 'orelse', 'finalbody'):
+        block = getattr(owner, f, None)
+        if not (isinstance(block, list) and len(block) > 1 and isinstance(
+            block[0], ast.stmt)):
+          continue
+        for i in range(len(block) - 1):
+          st, nxt = block[i], block[i + 1]
+          if not isinstance(st, ast.If) or not isinstance(
+              nxt, (ast.Assign, ast.Return, ast.Expr)):
+            continue
+          callees = [c.func.id for c in ast.walk(nxt) if isinstance(
+              c, ast.Call) and isinstance(c.func, ast.Name)]
+          arms, last_if = arms_of(st)
+          for name in callees:
+            if name in known_locals or name in params:
+              continue
+            loads = [n for n in ast.walk(fn) if isinstance(n, ast.Name) and
+                     n.id == name and isinstance(n.ctx, ast.Load)]
+            if len(loads) != 1:
+              continue
+            stores = [n for n in ast.walk(fn) if isinstance(n, ast.Name) and
+                      n.id == name and isinstance(n.ctx, (ast.Store,
+                                                          ast.Del))]
+            binding = []
+            ok = True
+            for arm in arms:
+              if leaves(arm):
+                continue
+              b = arm[-1] if arm else None
+              if isinstance(b, ast.Assign) and len(b.targets) == 1 and \
+                  isinstance(b.targets[0], ast.Name) and \
+                  b.targets[0].id == name and isinstance(
+                      b.value, (ast.Name, ast.Attribute)):
+                binding.append(b)
+              else:
+                ok = False
+            if not ok or not binding or len(binding) != len(stores):
+              continue
+            for arm in arms:
+              if not leaves(arm) and arm:
+                arm.append(_copy.deepcopy(nxt))
+            del block[i + 1]
+            ast.fix_missing_locations(fn)
+            again = True
+            break
+          if again:
+            break
+        if again:
+          break
+      if again:
+        break
+  return fn
+
+
 def substitute_aliases(fn, known_locals):
   """P = X[c]  ... P[j] = v ... P[k] ...   ->   X[c][j] = v ... X[c][k]
   for an unknown single-assignment local P that only names an element of a
@@ -1222,7 +1306,7 @@ def restore_loop_targets(fn, ref_loops, known_locals):
   by_iter = {}
   for it, tg in ref_loops or []:
     by_iter.setdefault(it, []).append(tg)
-  used = {n.id for n in ast.walk(fn) if isinstance(n, ast.Name)}
+  used = _names_outside_comprehensions(fn)
   for loop in [n for n in ast.walk(fn) if isinstance(n, ast.For)]:
     it = ast.unparse(loop.iter)
     cands = by_iter.get(it)
@@ -1254,8 +1338,24 @@ def restore_loop_targets(fn, ref_loops, known_locals):
     for n in ast.walk(fn):
       if isinstance(n, ast.Name) and n.id in ren:
         n.id = ren[n.id]
-    used = {n.id for n in ast.walk(fn) if isinstance(n, ast.Name)}
+    used = _names_outside_comprehensions(fn)
   return fn
+
+
+def _names_outside_comprehensions(fn):
+  """names used in the function, not counting the variables of comprehensions
+  (they live in the comprehension's own scope)"""
+  own = set()
+  for c in ast.walk(fn):
+    if isinstance(c, (ast.ListComp, ast.SetComp, ast.DictComp,
+                      ast.GeneratorExp)):
+      bound = {n.id for g in c.generators for n in ast.walk(g.target)
+               if isinstance(n, ast.Name)}
+      for n in ast.walk(c):
+        if isinstance(n, ast.Name) and n.id in bound:
+          own.add(id(n))
+  return {n.id for n in ast.walk(fn) if isinstance(n, ast.Name) and
+          id(n) not in own}
 
 
 class _Blank(ast.NodeTransformer):
@@ -1301,7 +1401,7 @@ def restore_renamed_locals(fn, ref_shapes, known_locals):
   for _ in range(6):
     cur = def_shapes(fn)
     params = {a.arg for a in ast.walk(fn.args) if isinstance(a, ast.arg)}
-    used = {n.id for n in ast.walk(fn) if isinstance(n, ast.Name)}
+    used = _names_outside_comprehensions(fn)
     vanished = {l: tuple(sh) for l, sh in ref_shapes.items()
                 if l not in used and l not in params}
     fresh = {u: tuple(sh) for u, sh in cur.items()
@@ -1324,6 +1424,246 @@ def restore_renamed_locals(fn, ref_shapes, known_locals):
         break
     if not done:
       break
+  return fn
+
+
+def expand_fill_comprehensions(fn, ref_defs):
+  """x = [E for t in it if c]   ->   x = [] ; for t in it: if c: x.append(E)
+  x = {K: V for t in it}       ->   x = {} ; for t in it: x[K] = V
+  for a local x that the reference function fills with a loop (its only
+  reference definition is `x = []` / `x = {}`).  `return [E for ...]` is named
+  after the one reference list local that the function no longer defines.
+  A comprehension and the loop that appends to an empty container build the
+  same container in the same order; which of the two a function uses is taken
+  from its reference."""
+  if not ref_defs:
+    return fn
+  lists = {l for l, sh in ref_defs.items() if list(sh) == ['_ = []']}
+  dicts = {l for l, sh in ref_defs.items() if list(sh) == ['_ = {}']}
+  if not lists and not dicts:
+    return fn
+  used = {n.id for n in ast.walk(fn) if isinstance(n, ast.Name)}
+  for owner in ast.walk(fn):
+    for f in ('body', 'orelse', 'finalbody'):
+      block = getattr(owner, f, None)
+      if not (isinstance(block, list) and block and isinstance(
+          block[0], ast.stmt)):
+        continue
+      i = 0
+      while i < len(block):
+        st = block[i]
+        i += 1
+        comp = name = None
+        if isinstance(st, ast.Assign) and len(st.targets) == 1 and isinstance(
+            st.targets[0], ast.Name) and isinstance(
+                st.value, (ast.ListComp, ast.DictComp)):
+          name, comp = st.targets[0].id, st.value
+        elif isinstance(st, ast.Return) and isinstance(st.value,
+                                                       ast.ListComp):
+          free = sorted(lists - used)
+          if len(free) == 1:
+            name, comp = free[0], st.value
+        if comp is None or len(comp.generators) != 1 or \
+            comp.generators[0].is_async:
+          continue
+        if isinstance(comp, ast.ListComp) and name not in lists:
+          continue
+        if isinstance(comp, ast.DictComp) and name not in dicts:
+          continue
+        # the element expression must not read the container being built
+        if any(isinstance(n, ast.Name) and n.id == name
+               for n in ast.walk(comp)):
+          continue
+        g = comp.generators[0]
+        tgt = ast.Name(id=name, ctx=ast.Load())
+        if isinstance(comp, ast.ListComp):
+          init = ast.List(elts=[], ctx=ast.Load())
+          fill = ast.Expr(value=ast.Call(func=ast.Attribute(
+              value=tgt, attr='append', ctx=ast.Load()), args=[comp.elt],
+                                         keywords=[]))
+        else:
+          init = ast.Dict(keys=[], values=[])
+          fill = ast.Assign(targets=[ast.Subscript(
+              value=tgt, slice=comp.key, ctx=ast.Store())], value=comp.value,
+                            lineno=st.lineno)
+        body = [fill]
+        for c in reversed(g.ifs):
+          body = [ast.If(test=c, body=body, orelse=[])]
+        loop = ast.For(target=g.target, iter=g.iter, body=body, orelse=[],
+                       lineno=st.lineno)
+        for n in ast.walk(loop.target):
+          if isinstance(n, (ast.Name, ast.Tuple, ast.List)):
+            n.ctx = ast.Store()
+        new = [ast.Assign(targets=[ast.Name(id=name, ctx=ast.Store())],
+                          value=init, lineno=st.lineno), loop]
+        if isinstance(st, ast.Return):
+          new.append(ast.Return(value=ast.Name(id=name, ctx=ast.Load())))
+          used.add(name)
+        for k, x in enumerate(new):
+          ast.copy_location(x, st)
+          for sub in ast.walk(x):
+            if not hasattr(sub, 'lineno') and isinstance(
+                sub, (ast.expr, ast.stmt)):
+              ast.copy_location(sub, st)
+            if isinstance(sub, (ast.expr, ast.stmt)) and sub is not x:
+              pass
+          x.col_offset = getattr(st, 'col_offset', 0) + k
+        block[i - 1:i] = new
+        i += len(new) - 1
+  ast.fix_missing_locations(fn)
+  return fn
+
+
+def comp_targets(fn):
+  """[[iterable text, target text], ...] of the single-generator
+  comprehensions of fn"""
+  return [[ast.unparse(c.generators[0].iter),
+           ast.unparse(c.generators[0].target)]
+          for c in ast.walk(fn) if isinstance(c, (
+              ast.ListComp, ast.SetComp, ast.DictComp, ast.GeneratorExp))
+          and len(c.generators) == 1]
+
+
+def restore_comp_targets(fn, ref_comps):
+  """the variable of a comprehension is bound in the comprehension only: a
+  comprehension over the same iterable as a reference comprehension gets the
+  reference's variable names (when they are not otherwise read inside it)"""
+  by_iter = {}
+  for it, tg in ref_comps or []:
+    by_iter.setdefault(it, set()).add(tg)
+  for c in ast.walk(fn):
+    if not (isinstance(c, (ast.ListComp, ast.SetComp, ast.DictComp,
+                           ast.GeneratorExp)) and len(c.generators) == 1):
+      continue
+    g = c.generators[0]
+    cands = by_iter.get(ast.unparse(g.iter))
+    if not cands or len(cands) != 1:
+      continue
+    ref = next(iter(cands))
+    if ref == ast.unparse(g.target):
+      continue
+    try:
+      ref_t = ast.parse(ref, mode='eval').body
+    except SyntaxError:
+      continue
+    pairs = []
+
+    def match(a, b):
+      if isinstance(a, ast.Name) and isinstance(b, ast.Name):
+        pairs.append((a.id, b.id))
+        return True
+      if isinstance(a, ast.Tuple) and isinstance(b, ast.Tuple) and len(
+          a.elts) == len(b.elts):
+        return all(match(x, y) for x, y in zip(a.elts, b.elts))
+      return False
+    if not match(g.target, ref_t):
+      continue
+    ren = {a: b for a, b in pairs if a != b}
+    inside = {n.id for n in ast.walk(c) if isinstance(n, ast.Name)}
+    if not ren or any(b in inside for b in ren.values()):
+      continue
+    if any(isinstance(x, (ast.ListComp, ast.SetComp, ast.DictComp,
+                          ast.GeneratorExp, ast.Lambda)) and x is not c
+           for x in ast.walk(c)):
+      continue
+    for n in ast.walk(c):
+      if isinstance(n, ast.Name) and n.id in ren:
+        n.id = ren[n.id]
+  return fn
+
+
+def collapse_fill_loops(fn, known_locals):
+  """x = [] ; for t in it: x.append(E)   ->   x = [E for t in it]
+  x = {} ; for t in it: x[K] = V       ->   x = {K: V for t in it}
+  (also with one `if c:` around the fill) for an unknown local x that is
+  touched nowhere else before, and only read afterwards"""
+  params = {a.arg for a in ast.walk(fn.args) if isinstance(a, ast.arg)}
+  for owner in ast.walk(fn):
+    for f in ('body', 'orelse', 'finalbody'):
+      block = getattr(owner, f, None)
+      if not (isinstance(block, list) and len(block) > 1 and isinstance(
+          block[0], ast.stmt)):
+        continue
+      i = 0
+      while i + 1 < len(block):
+        st, loop = block[i], block[i + 1]
+        i += 1
+        if not (isinstance(st, ast.Assign) and len(st.targets) == 1 and
+                isinstance(st.targets[0], ast.Name) and isinstance(
+                    loop, ast.For) and not loop.orelse and len(
+                        loop.body) == 1):
+          continue
+        x = st.targets[0].id
+        if x in known_locals or x in params:
+          continue
+        is_list = isinstance(st.value, ast.List) and not st.value.elts
+        is_dict = isinstance(st.value, ast.Dict) and not st.value.keys
+        if not (is_list or is_dict):
+          continue
+        inner = loop.body[0]
+        ifs = []
+        if isinstance(inner, ast.If) and not inner.orelse and len(
+            inner.body) == 1:
+          ifs = [inner.test]
+          inner = inner.body[0]
+        comp = None
+        if is_list and isinstance(inner, ast.Expr) and isinstance(
+            inner.value, ast.Call) and isinstance(
+                inner.value.func, ast.Attribute) and \
+            inner.value.func.attr == 'append' and isinstance(
+                inner.value.func.value, ast.Name) and \
+            inner.value.func.value.id == x and len(
+                inner.value.args) == 1 and not inner.value.keywords:
+          comp = ast.ListComp(elt=inner.value.args[0], generators=[
+              ast.comprehension(target=loop.target, iter=loop.iter, ifs=ifs,
+                                is_async=0)])
+        if is_dict and isinstance(inner, ast.Assign) and len(
+            inner.targets) == 1 and isinstance(
+                inner.targets[0], ast.Subscript) and isinstance(
+                    inner.targets[0].value, ast.Name) and \
+            inner.targets[0].value.id == x:
+          comp = ast.DictComp(key=inner.targets[0].slice, value=inner.value,
+                              generators=[ast.comprehension(
+                                  target=loop.target, iter=loop.iter, ifs=ifs,
+                                  is_async=0)])
+        if comp is None:
+          continue
+        # x is read in the fill only as the container; the loop variables
+        # are not used after the loop; nothing else stores or mutates x
+        reads_x = sum(1 for n in ast.walk(loop) if isinstance(n, ast.Name)
+                      and n.id == x)
+        if reads_x != 1:
+          continue
+        tvars = {n.id for n in ast.walk(loop.target) if isinstance(
+            n, ast.Name)}
+        outside = [n for n in ast.walk(fn) if isinstance(n, ast.Name) and
+                   n.id in tvars and not any(n is m for m in ast.walk(loop))]
+        if outside:
+          continue
+        other = 0
+        for n in ast.walk(fn):
+          if isinstance(n, ast.Name) and n.id == x and isinstance(
+              n.ctx, (ast.Store, ast.Del)):
+            other += 1
+          if isinstance(n, ast.Subscript) and isinstance(
+              n.ctx, (ast.Store, ast.Del)) and isinstance(
+                  n.value, ast.Name) and n.value.id == x:
+            other += 1
+          if isinstance(n, ast.Call) and isinstance(
+              n.func, ast.Attribute) and isinstance(
+                  n.func.value, ast.Name) and n.func.value.id == x and \
+              n.func.attr in ('append', 'extend', 'pop', 'insert', 'remove',
+                              'clear', 'sort', 'reverse', 'update',
+                              'setdefault'):
+            other += 1
+        if other != 2:      # the initialisation and the one fill
+          continue
+        for n in ast.walk(comp.generators[0].target):
+          if hasattr(n, 'ctx'):
+            n.ctx = ast.Store()
+        st.value = ast.copy_location(comp, st.value)
+        del block[i]
+        ast.fix_missing_locations(fn)
   return fn
 
 
@@ -1398,7 +1738,11 @@ def normalise_module(modname, tree):
         ast.fix_missing_locations(fn)
       if inv[q].get('returns'):
         name_returns(fn, inv[q]['returns'])
+      expand_fill_comprehensions(fn, inv[q].get('defs'))
       before = local_names(fn)
+      if before - known:
+        collapse_fill_loops(fn, known)
+      restore_comp_targets(fn, inv[q].get('comps'))
       if before - known:
         restore_loop_targets(fn, inv[q].get('loops'), known)
         restore_renamed_locals(fn, inv[q].get('defs'), known)
@@ -1406,6 +1750,7 @@ def normalise_module(modname, tree):
         expand_kwargs_dicts(fn, known)
         coalesce_copies(fn, known)
         forward_attribute_copies(fn, known)
+        sink_callee_choice(fn, known)
         split_versions(fn, known)
         substitute_aliases(fn, known)
         substitute_new_locals(fn, known)
